@@ -80,8 +80,9 @@ Definition put_glyph (t : term) (gl : list Z) (k : Z) : term :=
         let old := g r' in
         fun c' =>
           if (c <=? c') && (c' <? c + k) then DCell gl k (c' - c) pn lk
-          else match old c' with
-               | DCell _ w off _ _ => if overlaps (c' - off) w c k then DPoison else old c'
+          else let d := old c' in
+               match d with
+               | DCell _ w off _ _ => if overlaps (c' - off) w c k then DPoison else d
                | DPoison => DPoison
                end
       else g r' in
